@@ -203,6 +203,58 @@ def job_propagate(j, seed):
     return {'obligations': obs, 'candidates': cands, 'paths': 1}
 
 
+def job_propagate_array(j, seed):
+    """propagate_to with a range of distances (several detector / monitor positions at once), one of which may be the
+    frame's own distance: for every position k and vertex i the arrival time is t_i + (D_k - D_frame) lambda_i m_n / h and the
+    wavelength is unchanged; the frame reports the distances it was asked for."""
+    own_first = j
+    from symex import core as C
+    from .symutil import fresh_run, H, MN
+
+    sc, cc = _load()
+    fresh_run()
+    obs, cands = [], []
+    case = {'kind': 'propagate-array', 'own_first': own_first}
+    tag = f'propagate-array[{"own distance among the targets" if own_first else "all targets further away"}]'
+    t = [C.sym_var(f't{i}') for i in range(3)]
+    w = [C.sym_var(f'w{i}', sign='+') for i in range(3)]
+    D0 = C.sym_var('D0', sign='+')
+    d1, d2 = C.sym_var('d1', sign='+'), C.sym_var('d2', sign='+')
+    frame = cc.Frame(distance=sc.scalar(D0, unit='m'), subframes=[cc.Subframe(time=_var(t, 'vertex', 's'), wavelength=_var(w, 'vertex', 'angstrom'))])
+    dist = [D0, D0 + d1, D0 + d1 + d2] if own_first else [D0 + d1, D0 + d1 + d2]
+    C.CTX.fork_timeout_ms = 3000
+    paths = C.explore(lambda: frame.propagate_to(_var(dist, 'distance', 'm')), max_paths=16)
+    ang = Fraction(1, 10**10)
+    nret = 0
+    for k_, p in enumerate(paths):
+        if p.exc is not None or p.inconclusive:
+            obs.append({'name': f'{tag}:path{k_}:runs', 'status': 'inconclusive' if p.inconclusive else 'violated', 'detail': str(p.inconclusive or repr(p.exc))[:200], 't': 0})
+            if p.exc is not None:
+                cands.append(('C11:propagate:raises', case, repr(p.exc)[:100]))
+            continue
+        nret += 1
+        out = p.value
+        sub = out.subframes[0] if len(out.subframes) == 1 else None
+        good = C.B.const(sub is not None and set(sub.time.dims) == {'distance', 'vertex'} and sub.time.unit == sc.Unit('s') and sub.wavelength.unit == sc.Unit('angstrom')
+                         and out.distance.dims == ('distance',) and len(out.distance) == len(dist))
+        if sub is not None and set(sub.time.dims) == {'distance', 'vertex'}:
+            for kd, Dk in enumerate(dist):
+                good = good & (out.distance.values[kd] == Dk)
+                tk = sub.time['distance', kd]
+                wk = sub.wavelength['distance', kd] if 'distance' in sub.wavelength.dims else sub.wavelength
+                for i in range(3):
+                    with C.oracle():
+                        exp = t[i] + (Dk - D0) * (w[i] * ang) * MN() / H()
+                    good = good & (tk.values[i] == exp) & (wk.values[i] == w[i])
+        ob = C.prove(f'{tag}:path{k_}: arrival time t + (D_k - D) lambda m_n/h at every requested position, wavelength unchanged', good, pc=p.pc)
+        obs.append(ob_dict(ob))
+        if ob.status == 'violated':
+            cands.append(('C11:propagate:array', case, 'a frame propagated to a range of distances is not sheared per distance'))
+    ob = C.prove(f'{tag}:some path returns', C.B.const(nret >= 1))
+    obs.append(ob_dict(ob))
+    return {'obligations': obs, 'candidates': cands, 'paths': len(paths)}
+
+
 def _frame_terms(frame):
     return [(list(s.time.values), list(s.wavelength.values)) for s in frame.subframes]
 
@@ -599,6 +651,7 @@ def run(chk):
     ns = [3, 4, 5] if chk.tier == 'quick' else [3, 4, 5, 6]
     run_jobs(chk, job_clip, [(n, c) for n in ns for c in (True, False)])
     run_jobs(chk, job_propagate, [0])
+    run_jobs(chk, job_propagate_array, [True, False])
     run_jobs(chk, job_order, [0])
     run_jobs(chk, job_getitem, [2, 3] if chk.tier == 'quick' else [2, 3, 4])
     run_jobs(chk, job_framechop, [(1, 2), (2, 2)] if chk.tier == 'quick' else [(1, 2), (2, 2), (1, 3), (2, 3)])
@@ -757,6 +810,21 @@ def replay_real(case):
         one = fr.propagate_to(sc.scalar(13.0, unit='m'))
         if not np.allclose(two.subframes[0].time.values, one.subframes[0].time.values, rtol=1e-13):
             bad.append('two steps != one step')
+    elif kind == 'propagate-array':
+        h = sc.constants.h.value
+        mn = sc.constants.m_n.value
+        t = np.array([4e-3, 6e-3, 9e-3])
+        w = np.array([1.0, 2.0, 4.0])
+        for D0, dists in ((6.0, [6.0, 8.0, 10.0]), (6.0, [8.0, 10.0]), (0.0, [0.0, 1.5]), (2.5, [1.0, 2.5, 7.0])):
+            fr = cc.Frame(distance=sc.scalar(D0, unit='m'), subframes=[cc.Subframe(time=sc.array(dims=['vertex'], values=t, unit='s'), wavelength=sc.array(dims=['vertex'], values=w, unit='angstrom'))])
+            out = fr.propagate_to(sc.array(dims=['distance'], values=dists, unit='m'))
+            tt = out.subframes[0].time
+            for kd, Dk in enumerate(dists):
+                exp = t + (Dk - D0) * w * 1e-10 * mn / h
+                got = tt['distance', kd].values if 'distance' in tt.dims else tt.values
+                if not np.allclose(got, exp, rtol=1e-12, atol=1e-15):
+                    bad.append(f'frame at {D0} m propagated to {dists} m: arrival times at {Dk} m are {got.tolist()}, expected {exp.tolist()}')
+                    break
     elif kind == 'order':
         seq = cc.FrameSequence.from_source_pulse(sc.scalar(0.0, unit='ms'), sc.scalar(3.0, unit='ms'), sc.scalar(1.0, unit='angstrom'), sc.scalar(10.0, unit='angstrom'))
         c1 = cc.Chopper(distance=sc.scalar(5.0, unit='m'), time_open=sc.array(dims=['slit'], values=[0.002], unit='s'), time_close=sc.array(dims=['slit'], values=[0.01], unit='s'))
